@@ -480,6 +480,9 @@ func (db *DB) insertOrUpdate(s *Schema, o Object, commit bool) (err error) {
 		// we don't write object to disk but store
 		// it in a structure for later saving
 		db.asyncw.put(o)
+		// a schema loaded by this very call has no routine yet. Callers
+		// hold db lock for writing so no other call can be starting it
+		db.startAsyncWritesRoutine(s)
 	} else if commit {
 		// commiting schema and index to disk
 		return db.commit(o)
